@@ -232,7 +232,7 @@ class CapLog:
 class PrefixSerDes:
     """A custom SerDes (JSON with a marker prefix) for checks that need one."""
 
-    def __new__(cls):
+    def __new__(cls, broken_from=None, inv=lambda: 0):
         from aws_durable_execution_sdk_python.serdes import SerDes
 
         class _P(SerDes):
@@ -240,6 +240,9 @@ class PrefixSerDes:
                 return "PFX" + json.dumps(value)
 
             def deserialize(self, data, ctx):
+                if broken_from is not None and inv() >= broken_from:
+                    # e.g. a new deployment whose decoder no longer accepts what an earlier one wrote
+                    raise ValueError(f"decoder of invocation {inv()} rejects the recorded payload")
                 if not data.startswith("PFX"):
                     raise ValueError("not PFX data")
                 return json.loads(data[3:])
@@ -278,7 +281,7 @@ class Interp:
                 raise make_exc(beh.get("cls", "Boom"), f"fail-{attempt}")
             return self._beh(beh.get("then", {"ret": None}), path, ent, item)
         if "raise" in beh:
-            raise make_exc(beh["raise"], beh.get("msg", "boom"))
+            raise make_exc(beh["raise"], "x" * beh["msg_pad"] if "msg_pad" in beh else beh.get("msg", "boom"))
         if "bytes" in beh:
             return beh.get("char", "x") * beh["bytes"]
         if "item" in beh:
@@ -334,6 +337,8 @@ class Interp:
     def _serdes(self, spec):
         if spec == "prefix":
             return PrefixSerDes()
+        if isinstance(spec, dict) and "prefix_broken_from" in spec:
+            return PrefixSerDes(broken_from=spec["prefix_broken_from"], inv=lambda: self.d.inv)
         return None
 
     # ---- sequences
@@ -463,7 +468,9 @@ class Interp:
                 w.exit(path + (2,))
             return [self._deliver(path, lambda: ctx.wait_for_callback(submitter, name=name, config=wcfg), "wait_for_callback")]
         if k == "invoke":
-            icfg = InvokeConfig(timeout=Duration(seconds=op.get("timeout", 0)), tenant_id=op.get("tenant"))
+            icfg = InvokeConfig(timeout=Duration(seconds=op.get("timeout", 0)), tenant_id=op.get("tenant"),
+                                serdes_payload=self._serdes(op.get("serdes_payload")),
+                                serdes_result=self._serdes(op.get("serdes_result")))
             return [self._deliver(path, lambda: ctx.invoke(op.get("fn", "target-fn"), dec(op.get("payload")),
                                                            name=name, config=icfg), "invoke")]
         if k == "wfc":
@@ -568,6 +575,8 @@ class Interp:
                     except BaseException:
                         w.exit(bpath, "raise")
                         raise
+                    if op.get("branch_ret") == "last":   # the branch returns its last operation's value itself, not a list
+                        vals = vals[-1] if vals else None
                     w.exit(bpath, returned=render(vals))
                     return vals
                 return run
